@@ -17,7 +17,8 @@ RULE = ('Hypothesis cases: receiver / refund / outsider seeds, preimages of leng
         'signed by receiver / refund / outsider, with right / wrong / 1-byte preimages. Oracle: the witness is reduced '
         'to the typed stack it leaves and the acceptance condition of the statement is evaluated per lock kind with the '
         'RFC 8032 reference. non-trivial = a boundary timestamp, a cross pairing, a wrong key / preimage, or a tweak; '
-        'distinct by case parameters.')
+        'distinct by case parameters.'
+        ' Tweak scalars include raw and top-bit-set 32-byte strings (lock point = derive_point as documented); digest sizes up to 255; an exception of a builder is a violation.')
 ASSUMPTIONS = ['clock pinned at build time and at verification time through tools.time / functions.time',
                'the tweak point of a scalar is derive_point(t) as documented: libsodium ignores bit 255 of the scalar there',
                'hash commitments are collision-free except where the predicate evaluates the truncated digest itself']
